@@ -347,7 +347,7 @@ pub fn property() -> Property {
     subchecks.extend(crate::xen_emul::c15_subchecks());
     Property {
         id: "C15",
-        rule: "a case = one construction request: MmapRegion::build / MmapRegionBuilder / new / from_file with sizes {0, 1, page-1, page, page+1, 3 pages, random}, files of length {0, 1, 2, 2+17 bytes, 3 pages} and offsets placed so that offset+size is L-1, L, L+1, overflowing or unaligned, share flags {private, shared, neither, both} x anonymous x noreserve x MAP_FIXED, prot words; build_raw with aligned and misaligned pointers; GuestRegionMmap with base+size in 2^64-3..2^64+3; from_ranges_with_files whose k-th element is past EOF / overlapping / unsorted; xen build: every Xen mapping-flag word 0x0..0xF plus unknown bits x file present/absent x offset 0/non-zero over emulated devices; oracle = decision table of the documented error conditions (several conditions => any of their errors), attributes of the built region, the interposed mmap/munmap log (nothing left mapped after a failure, exactly one munmap on drop, none for raw), pread/pwrite coherence at first/last/random bytes; non-trivial = request within 1 of a table boundary, MAP_FIXED, refused by the table, raw pointer, base+size near 2^64, partial list construction, a Xen flag word; distinct = decoded request",
+        rule: "a case = one construction request: MmapRegion::build / MmapRegionBuilder / new / from_file with sizes {0, 1, page-1, page, page+1, 3 pages, random}, files of length {0, 1, 2, 2+17 bytes, 3 pages} and offsets placed so that offset+size is L-1, L, L+1, overflowing or unaligned, share flags {private, shared, neither, both} x anonymous x noreserve x MAP_FIXED, prot words; build_raw with aligned and misaligned pointers; GuestRegionMmap with base+size in 2^64-3..2^64+3; from_ranges_with_files whose k-th element is past EOF / overlapping / unsorted; xen build: every Xen mapping-flag word 0x0..0xF plus unknown bits x file present/absent x file offset {0, page, 0x800, page+1, EOF-size, EOF-size+1, 2 pages} over emulated devices, a xen-unix file region that is produced is compared with the file in both directions; oracle = decision table of the documented error conditions (several conditions => any of their errors), attributes of the built region, the interposed mmap/munmap log (nothing left mapped after a failure, exactly one munmap on drop, none for raw), pread/pwrite coherence at first/last/random bytes; non-trivial = request within 1 of a table boundary, MAP_FIXED, refused by the table, raw pointer, base+size near 2^64, partial list construction, a Xen flag word; distinct = decoded request",
         assumptions: &["requests outside the decision table that the OS may refuse accept both Ok(with correct attributes) and Err(Mmap)", "base+size == 2^64 is a don't-care"],
         subchecks,
     }
